@@ -100,6 +100,12 @@ func NewArena(c Case) (*Arena, error) {
 		if c.Spelling == "dstlink-slash" {
 			a.Spelled += "/"
 		}
+	case "absent":
+		// the destination does not exist yet (Unpack creates it)
+		if len(c.Pre) == 0 {
+			os.Remove(a.Dst)
+		}
+		a.Spelled = a.Dst
 	case "abs-doubleslash":
 		a.Spelled = filepath.Dir(a.Dst) + "//dst"
 	case "abs-dots":
@@ -353,6 +359,16 @@ func GenCase(t *rapid.T, linkWeight, escapeWeight int, withFaults bool, withAllo
 		c.Entries = scenario(t, c.Entries)
 		planted = true
 	}
+	rootLinkAllow := ""
+	if planted && len(c.Entries) > 0 && c.Entries[0].Type == "symlink" && Normalised(c.Entries[0].Name) == "" {
+		// family 8: mostly into a destination that does not exist yet, with the link's target allow-listed
+		if rapid.IntRange(0, 3).Draw(t, "absent8") > 0 {
+			c.Spelling, c.Pre = "absent", nil
+		}
+		if strings.Contains(c.Entries[0].Link, "outside") && rapid.IntRange(0, 3).Draw(t, "allow8") > 0 {
+			rootLinkAllow = c.Entries[0].Link
+		}
+	}
 	// cooperation: later entries reuse, extend or shorten the names of earlier
 	// ones, and link targets pass through earlier entries
 	coop := rapid.SliceOfN(rapid.IntRange(0, 99), 8, 8).Draw(t, "coop")
@@ -404,10 +420,17 @@ func GenCase(t *rapid.T, linkWeight, escapeWeight int, withFaults bool, withAllo
 			c.Fault = Fault{Kind: "readerr", Pm: rapid.IntRange(0, 1000).Draw(t, "pm")}
 		}
 	}
-	if withAllow && rapid.IntRange(0, 3).Draw(t, "allow?") == 0 {
+	if withAllow && rootLinkAllow != "" {
+		c.Allow = []string{rootLinkAllow}
+	} else if withAllow && rapid.IntRange(0, 3).Draw(t, "allow?") == 0 {
 		c.Allow = []string{rapid.SampledFrom([]string{"{R}/l1/l2/l3/outside", "../outside", "{R}/l1/l2/l3/outside/f", "../dst-evil", "/etc", "{R}/l1/l2/l3/out", "../out", "../dst-ev", "../outside/", "../dst", "{DST}", "../outside/d"}).Draw(t, "allow")}
 	}
 	return c
+}
+
+// Normalised maps an entry name to its path below dst ("" = dst itself).
+func Normalised(name string) string {
+	return strings.TrimPrefix(filepath.Clean("/"+name), "/")
 }
 
 // Exists is a tiny helper for harness code.
@@ -448,7 +471,15 @@ func scenario(t *rapid.T, rest []tarx.Entry) []tarx.Entry {
 		}
 	}
 	var plant []tarx.Entry
-	switch rapid.IntRange(0, 7).Draw(t, "family") {
+	switch rapid.IntRange(0, 8).Draw(t, "family") {
+	case 8: // an entry for the archive root that is not a directory (meant for a destination that does not exist yet)
+		rootName := rapid.SampledFrom([]string{"./", ".", "/", "a/.."}).Draw(t, "rootname8")
+		kind := rapid.SampledFrom([]string{"symlink", "symlink", "file", "hardlink"}).Draw(t, "rootkind8")
+		first := ent(rootName, kind, "")
+		if kind == "symlink" {
+			first.Link = rapid.SampledFrom([]string{"../outside", "{R}/l1/l2/l3/outside", "..", "../dst-evil", "dst-evil"}).Draw(t, "roottarget8")
+		}
+		plant = []tarx.Entry{first, ent(seg("f8"), "file", ""), ent(seg("d8")+"/x", "file", "")}
 	case 7: // an escaping link by way of another link, inside a directory recorded without write permission
 		d, a, b := seg("d"), seg("a"), seg("b")
 		if a == d {
@@ -564,6 +595,9 @@ func (s SeqCase) AsCase(i int) Case {
 // other way round), so that what one call learnt about dst is wrong for the next.
 func GenSeq(t *rapid.T) SeqCase {
 	s := SeqCase{First: GenCase(t, 30, 15, false, true)}
+	if s.First.Spelling == "absent" {
+		s.First.Spelling = "clean"
+	}
 	n := rapid.IntRange(1, 2).Draw(t, "nmore")
 	var earlier []tarx.Entry
 	earlier = append(earlier, s.First.Entries...)
